@@ -1,7 +1,10 @@
 (* C15 -- free row space is exactly the rows minus fixed obstructions.
-   Model: FreeSpace.v (contract of Row::freespace / Circuit::computeRows, which
-   delegate to boost::polygon; tied by the exhaustive-on-a-grid + random
-   correspondence of ./check C15). *)
+   FreeSpace.v is a SPECIFICATION (contract) of Row::freespace / Circuit::computeRows, tested equal to
+   the code by the exhaustive-on-a-grid + random correspondence of ./check C15; it is NOT a model of
+   the code path (boost::polygon get_rectangles slicing + the height filter are not modelled).  The
+   theorems below are properties of the specification function freespace_iv on one row with a
+   rectangle list; nothing is stated at compute_rows / compute_rows_circuit level.  Domain:
+   non-inverted rectangles (boost normalises minX > maxX; the specification does not). *)
 From Coq Require Import List ZArith Lia Bool Permutation.
 Import ListNotations.
 Require Import CV.Orient CV.FreeSpace CV.FreeSpaceProofs.
@@ -34,7 +37,9 @@ Theorem c15_rows_shape : forall r obs s,
   minX (rr r) <= minX (rr s) /\ minX (rr s) < maxX (rr s) /\ maxX (rr s) <= maxX (rr r).
 Proof. exact freespace_rows_shape. Qed.
 
-(* [F] movable cells and fixed cells flagged as non-obstructions are ignored *)
+(* [by construction of the specification: this restates the definition of obstacles_of (if fx && ob vs
+   filter); that the CODE ignores such cells rests entirely on the tie]
+   movable cells and fixed cells flagged as non-obstructions are ignored *)
 Theorem c15_compute_rows_ignores : forall rows extra cells,
   compute_rows rows extra cells =
   compute_rows rows extra (filter (fun c => match c with (_, fx, ob) => fx && ob end) cells).
